@@ -142,6 +142,29 @@ class SimConn:
         self.transport: Optional["SimTransport"] = None
 
 
+_LOG_STATE = {"n": 0}
+
+
+def log_debug(on) -> None:
+    """The library's DEBUG-only code paths (frame dumps in the socket) are part of the code under check: rigs run
+    with the package logger at DEBUG (records go to a null handler) or with logging disabled.  on=None alternates."""
+    import logging
+    if on is None:
+        _LOG_STATE["n"] += 1
+        on = _LOG_STATE["n"] % 2 == 0
+    lg = logging.getLogger("pyairtouch")
+    _LOG_STATE["on"] = bool(on)
+    if on:
+        logging.disable(logging.NOTSET)
+        if not any(isinstance(h, logging.NullHandler) for h in lg.handlers):
+            lg.addHandler(logging.NullHandler())
+        lg.propagate = False
+        lg.setLevel(logging.DEBUG)
+    else:
+        lg.setLevel(logging.WARNING)
+        logging.disable(logging.CRITICAL)
+
+
 class SimTransport(asyncio.Transport):
     def __init__(self, loop: VLoop, protocol, conn: SimConn) -> None:
         super().__init__()
@@ -209,6 +232,9 @@ class SimTransport(asyncio.Transport):
         conn.net.on_client_bytes(conn)
 
     def close(self) -> None:
+        hook, self.conn.net.on_client_close = self.conn.net.on_client_close, None
+        if hook is not None:
+            hook(self.conn)
         if self._closing:
             return
         self._closing = True
@@ -317,6 +343,7 @@ class SimNet:
         self.dials = 0
         self.on_bytes: Optional[Callable[[SimConn], None]] = None
         self.on_open: Optional[Callable[[SimConn], None]] = None
+        self.on_client_close: Optional[Callable[[SimConn], None]] = None   # the client called transport.close()
 
     def event(self, ev: tuple) -> None:
         self.events.append(ev)
@@ -372,6 +399,9 @@ class SimNet:
 
 
 def new_loop() -> tuple[VLoop, SimNet]:
+    import os
+    forced = os.environ.get("VERIF_DEBUGLOG")
+    log_debug(None if forced is None else forced == "1")
     loop = VLoop()
     net = SimNet(loop)
     return loop, net
